@@ -235,6 +235,20 @@ pub fn assemble_fresh(text: &str, stack: bool) -> AsmOutcome {
     out
 }
 
+/// The same, as the second assembly on its thread: `before` is assembled first (whatever comes of
+/// it), then the documented `reset_state()`, then `text`.
+pub fn assemble_after(before: &str, text: &str, stack: bool) -> AsmOutcome {
+    init_features(stack);
+    let mut first = StaticSource::new(before.to_string());
+    let _ = assemble_static(first.src());
+    first.reclaim();
+    lace::reset_state();
+    let mut source = StaticSource::new(text.to_string());
+    let out = assemble_static(source.src());
+    source.reclaim();
+    out
+}
+
 // ---------------------------------------------------------------- VM driver
 
 #[derive(Clone, Debug, Default)]
